@@ -285,7 +285,7 @@ func permStage(t *testing.T, run *ev.Run, stage string) {
 			callers = append(callers, c)
 		}
 	}
-	multi := ev.Pick(500, 6000)
+	multi := ev.Pick(500, 24000)
 	for i := range multi {
 		n := 2
 		if i%3 == 2 {
